@@ -178,7 +178,8 @@ def check_roles(ctx, chk):
                 for i, x in enumerate(parts):
                     comps.setdefault((len(parts), i), []).append(x)
             for (n, i), xs in comps.items():
-                distinct = {repr(x) for x in xs}
+                # (by rendering, not by identity: two `{}` built on two branches are one value)
+                distinct = {cn.show(x) for x in xs}
                 if len(distinct) > 1 and not all(presentational(x) for x in xs):
                     bad.append(f"the mode selects between returned values "
                                f"{sorted(cn.show(x)[:80] for x in xs)[:3]}")
